@@ -26,6 +26,10 @@ MODULE = "UtapModel.Props.C08"
 CORPUS = os.path.join(core.VERIF, "corpus", "c08")
 
 
+# glibcxx assertion failures abort(): let ASan print the stack so that the crash can be keyed by the library function
+ABORT_ENV = {"ASAN_OPTIONS": core.SAN_ENV["ASAN_OPTIONS"] + ":handle_abort=1"}
+
+
 def build_harness(variant="asan"):
     b = core.build_repo(variant)
     cbs = BH.parse(core.REPO)
@@ -44,7 +48,7 @@ def run_batch(exe, cases, nproc=None):
             return 0, "", "", chunk
         text = "".join("%s %s %d %s %s\n" % (cid, fmt, nx, fl, base64.b64encode(t.encode("utf-8", "surrogateescape")).decode())
                        for cid, fmt, nx, fl, t in chunk)
-        rc, out, err, _ = core.run_exe(exe, ["batch"], stdin_text=text, timeout=900)
+        rc, out, err, _ = core.run_exe(exe, ["batch"], stdin_text=text, timeout=900, env=ABORT_ENV)
         return rc, out, err, chunk
 
     res, crashes = {}, []
